@@ -269,22 +269,22 @@ func (e c40Event) request(channel string) metadb.MessageEventAppend {
 
 type c40Stats struct {
 	effective, replayedID, afterTerminal, terminalFinalised, finishes, maxSeq atomic.Int64
-	replayAfterLaneMoved, sameIDOtherLane, deltaAccumulated                 atomic.Int64
+	replayAfterLaneMoved, sameIDOtherLane, deltaAccumulated                   atomic.Int64
 }
 
 type c40Inst struct {
-	r       *ev.R
-	st      *c40Stats
-	a       *c40Arena
-	chFSM   string
-	chDir   string
-	chPair  string
+	r        *ev.R
+	st       *c40Stats
+	a        *c40Arena
+	chFSM    string
+	chDir    string
+	chPair   string
 	laneBAll bool // thorough: every event type on the second lane too
-	ids     []string
-	used    int // ids introduced so far (first-use order)
-	m       c40Model
-	rows    map[string]c40Lane // stored lanes of the fsm path, read back
-	broken  bool
+	ids      []string
+	used     int // ids introduced so far (first-use order)
+	m        c40Model
+	rows     map[string]c40Lane // stored lanes of the fsm path, read back
+	broken   bool
 }
 
 func c40New(r *ev.R, st *c40Stats, ids []string, laneBAll bool) mc.Instance {
@@ -527,17 +527,40 @@ func TestVerifC40(t *testing.T) {
 		}
 	}()
 	st := &c40Stats{}
-	ids := ev.Pick(r, []string{"e1", "e2", "e3"}, []string{"e1", "e2", "e3", "e4"})
-	res := mc.Run(r, mc.System{
-		Name:      "event-projection",
-		New:       func() mc.Instance { return c40New(r, st, ids, r.Thorough()) },
-		MaxDepth:  ev.Pick(r, 6, 8),
-		MaxStates: ev.Pick(r, int64(300000), int64(3000000)),
-		Bounds: map[string]any{"event_types": "open delta snapshot close error cancel finish", "lanes": []string{metadb.EventKeyDefault, c40LaneB, metadb.EventKeyFinish + " (finish only)"},
-			"event_ids": ids, "lane_b_event_types": ev.Pick(r, "delta close cancel", "all six"), "id_symmetry": "ids are introduced in first-use order", "message": "one stream message per instance; the same sequence is applied through the slot state machine command path, through ShardStore.AppendMessageEvent and through the append-events batch command carrying every event twice",
-			"payloads": "delta appends its event id to the text, snapshot replaces it, close carries end_reason, error carries an error text and a snapshot, cancel/finish carry no snapshot"},
-		Note: "merging on the stored lanes read back through ListMessageEventStates + the reducer model (cursor, applied ids); an event id can be applied once, so the reachable space is finite and the frontier empties before the depth bound",
-	})
+	type sysCfg struct {
+		name     string
+		ids      []string
+		laneBAll bool
+	}
+	// quick: 3 ids, second lane with delta/close/cancel. thorough: the same pool with every event type on
+	// both lanes, and a pool of 4 ids (sequence up to 4) with the reduced second lane.
+	systems := ev.Pick(r, []sysCfg{{"event-projection", []string{"e1", "e2", "e3"}, false}},
+		[]sysCfg{{"event-projection", []string{"e1", "e2", "e3"}, true}, {"event-projection-4-ids", []string{"e1", "e2", "e3", "e4"}, false}})
+	var res mc.Result
+	maxIDs := 0
+	for _, sc := range systems {
+		sc := sc
+		if len(sc.ids) > maxIDs {
+			maxIDs = len(sc.ids)
+		}
+		laneB := "delta close cancel"
+		if sc.laneBAll {
+			laneB = "all six"
+		}
+		x := mc.Run(r, mc.System{
+			Name:      sc.name,
+			New:       func() mc.Instance { return c40New(r, st, sc.ids, sc.laneBAll) },
+			MaxDepth:  ev.Pick(r, 6, 8),
+			MaxStates: ev.Pick(r, int64(300000), int64(3000000)),
+			Bounds: map[string]any{"event_types": "open delta snapshot close error cancel finish", "lanes": []string{metadb.EventKeyDefault, c40LaneB, metadb.EventKeyFinish + " (finish only)"},
+				"event_ids": sc.ids, "lane_b_event_types": laneB, "id_symmetry": "ids are introduced in first-use order",
+				"message":  "one stream message per instance; the same sequence is applied through the slot state machine command path, through ShardStore.AppendMessageEvent and through the append-events batch command carrying every event twice",
+				"payloads": "delta appends its event id to the text, snapshot replaces it, close carries end_reason, error carries an error text and a snapshot, cancel/finish carry no snapshot"},
+			Note: "merging on the stored lanes read back through ListMessageEventStates + the reducer model (cursor, applied ids); an event id can be applied once, so the reachable space is finite and the frontier empties before the depth bound",
+		})
+		res.States += x.States
+	}
+	ids := make([]string, maxIDs)
 	if r.Replay() != nil {
 		return
 	}
